@@ -121,7 +121,7 @@ func judge(c Case) (*vf.Failure, string) {
 
 func TestValueSemantics(t *testing.T) {
 	defer vf.AfterCheck(t)
-	vf.Checks(160, 3000)
+	vf.Checks(160, 1600)
 	rapid.Check(t, func(t *rapid.T) {
 		var prog *gen.Program
 		var feats map[string]int
@@ -178,7 +178,7 @@ func TestValueSemantics(t *testing.T) {
 // Variable contents are values, too: dedicated generator with its own model (gen/variable.go).
 func TestVariableContents(t *testing.T) {
 	defer vf.AfterCheck(t)
-	vf.Checks(96, 1500)
+	vf.Checks(96, 600)
 	rapid.Check(t, func(t *rapid.T) {
 		src, expect, feats := gen.GenerateVariableProgram(t, rapid.IntRange(0, 3).Draw(t, "main-in-function") > 0)
 		c := Case{Source: src, Expect: expect, Levels: []int{0, 1, 2}}
